@@ -81,7 +81,7 @@ func orderOf(es []ev, id int) (int, bool) {
 	return 0, false
 }
 
-func oracle(r *rec, w *world, lines []string, script []string) string {
+func oracle(r *rec, w *world, lines []string, xobs []xob, script []string) string {
 	es := parseEvs(lines)
 	trigger := "plain"
 	for _, op := range script {
@@ -238,12 +238,39 @@ func oracle(r *rec, w *world, lines []string, script []string) string {
 			fail("crash", fmt.Sprintf("%s panicked: %s", api, msg), map[string]string{"api": api, "what": what, "trigger": t})
 		}
 	}
+	// the stopped context and the stopped flag: the context is cancelled only after the flag is set; both are set
+	// before any worker context is cancelled and before ShutdownAndWait returns; the flag is set after a refusal with
+	// ErrDaemonAlreadyStopped; neither is ever reset
+	for i := range xobs {
+		o := xobs[i]
+		bad := ""
+		switch {
+		case o.ctx && !o.flag:
+			bad = "ContextStopped() was cancelled while IsStopped() (read after it) was false"
+		case (o.kind == "seen" || o.kind == "sdret") && !o.ctx:
+			bad = "ContextStopped() was not cancelled"
+		case o.kind != "any" && !o.flag:
+			bad = "IsStopped() was false"
+		}
+		if bad != "" {
+			what := map[string]string{"seen": "after a worker saw its context cancelled", "sdret": "after ShutdownAndWait returned",
+				"refused": "after BackgroundWorker returned ErrDaemonAlreadyStopped", "any": "at some moment"}[o.kind]
+			fail("ctx", bad+" "+what, map[string]string{"api": "ContextStopped", "what": o.kind, "trigger": trigger})
+		}
+		for j := range xobs {
+			p := xobs[j]
+			if o.te < p.tb && ((o.ctx && !p.ctx) || (o.flag && !p.flag)) {
+				fail("ctx", "the stopped context / the stopped flag was observed set and later observed not set",
+					map[string]string{"api": "ContextStopped", "what": "reset", "trigger": trigger})
+			}
+		}
+	}
 	if len(failed) == 0 {
 		return "accept"
 	}
 	// canonical clause order, the same as the Lean driver's
 	var names []string
-	for _, c := range []string{"order", "together", "wait", "runwait", "noadd", "refused", "crash"} {
+	for _, c := range []string{"order", "together", "wait", "runwait", "noadd", "refused", "ctx", "crash"} {
 		if _, ok := failed[c]; ok {
 			names = append(names, c)
 		}
